@@ -124,9 +124,12 @@ type cfgRec struct {
 
 // CfgOp is one step of a cfgdb script.
 type CfgOp struct {
-	Kind  string `json:"k"` // set (config API) | put | putnil | del (database interface)
+	Kind  string `json:"k"` // set (config API) | put | putnil | del (database interface) | replace | replacedef (config API, all options at once)
 	Opt   int    `json:"o"`
 	Value string `json:"v,omitempty"`
+	// replace / replacedef: option number -> new value; options not named are reset;
+	// a value that does not fit the option's validation expression is rejected
+	Vals map[int]string `json:"vals,omitempty"`
 }
 
 func startModulesForConfig(dir string) error {
@@ -159,7 +162,7 @@ func runCfgDB(b *vlib.Batch, sc *Scenario) {
 			continue // replay rounds: already registered
 		}
 		err := config.Register(&config.Option{Name: "C14 option " + fmt.Sprint(i), Key: key, Description: "verification option",
-			OptType: config.OptTypeString, DefaultValue: fmt.Sprintf("default%d", i)})
+			OptType: config.OptTypeString, DefaultValue: fmt.Sprintf("default%d", i), ValidationRegex: "^[a-z0-9]+$"})
 		if err != nil {
 			b.Inconclusive("cfgdb: cannot register option: %v", err)
 			return
@@ -203,9 +206,92 @@ func runCfgDB(b *vlib.Batch, sc *Scenario) {
 		return out
 	}
 	drain()
+	// what the config database reports for an option (the exported record)
+	report := func(i int) string {
+		r, err := iface.Get("config:" + cfgKey(i))
+		if err != nil {
+			return "error: " + errString(err)
+		}
+		if w, ok := r.(*record.Wrapper); ok {
+			return string(w.Data)
+		}
+		return fmt.Sprintf("%T", r)
+	}
 	var history []map[string]any
 	for i, op := range sc.Cfg {
 		key := cfgKey(op.Opt)
+		if op.Kind == "replace" || op.Kind == "replacedef" {
+			// all options at once: every option whose reported record changed must be
+			// delivered exactly once (an unchanged one at most once)
+			before := make([]string, nopt)
+			for o := 0; o < nopt; o++ {
+				before[o] = report(o)
+			}
+			vals := map[string]interface{}{}
+			for o, v := range op.Vals {
+				vals[cfgKey(o)] = v
+			}
+			var nerr int
+			_, pnc, _ := guarded(func() error {
+				if op.Kind == "replace" {
+					errs, _ := config.ReplaceConfig(vals)
+					nerr = len(errs)
+				} else {
+					errs, _ := config.ReplaceDefaultConfig(vals)
+					nerr = len(errs)
+				}
+				return nil
+			})
+			got := drain()
+			changed := map[string]bool{}
+			for o := 0; o < nopt; o++ {
+				if report(o) != before[o] {
+					changed[cfgKey(o)] = true
+				}
+			}
+			step := map[string]any{"i": i, "op": op, "validation_errors": nerr, "panic": pnc, "feeds": got, "changed_options": changed}
+			history = append(history, step)
+			if len(history) > 12 {
+				history = history[1:]
+			}
+			b.Count("cfgop_"+op.Kind, 1)
+			b.Count("cfgdb_replace_validation_errors", int64(nerr))
+			wit := func() map[string]any { return map[string]any{"scenario": sc, "step": step, "last_steps": history} }
+			if pnc != "" {
+				b.Violation("C14:panic:"+panicClass(pnc)+":"+op.Kind+":config-db", "config replace panicked: "+pnc, wit())
+				return
+			}
+			for _, s := range subs {
+				cnt := map[string]int{}
+				for _, k := range got[s.prefix] {
+					cnt[k]++
+				}
+				for o := 0; o < nopt; o++ {
+					k := cfgKey(o)
+					match := strings.HasPrefix(k, s.prefix)
+					switch {
+					case !match && cnt[k] > 0:
+						b.Violation("C14:delivered-nonmatching:prefix:"+op.Kind+":config-db",
+							fmt.Sprintf("%s delivered config:%s to subscription config:%s", op.Kind, k, s.prefix), wit())
+						return
+					case match && cnt[k] > 1:
+						b.Violation("C14:duplicate:"+op.Kind+":config-db",
+							fmt.Sprintf("%s delivered config:%s %d times to subscription config:%s", op.Kind, k, cnt[k], s.prefix), wit())
+						return
+					case match && changed[k] && cnt[k] == 0:
+						b.Violation("C14:missing:"+op.Kind+":config-db",
+							fmt.Sprintf("%s changed what the config database reports for config:%s, but subscription config:%s received no update", op.Kind, k, s.prefix), wit())
+						return
+					}
+					if match && changed[k] {
+						b.Count("mandatory_deliveries", 1)
+						b.Count("cfgdb_replace_changes_delivered", 1)
+					}
+					b.Count("deliveries", int64(cnt[k]))
+				}
+			}
+			continue
+		}
 		var fn func() error
 		switch op.Kind {
 		case "set":
@@ -284,9 +370,21 @@ func genCfgDB(rng *vlib.Rand, id int) Scenario {
 	nopt := rng.Range(2, 4)
 	n := rng.Range(25, 50)
 	for i := 0; i < n; i++ {
-		op := CfgOp{Kind: pickKind(rng, []string{"set", "put", "putnil", "del"}, []int{30, 30, 10, 30}), Opt: rng.Intn(nopt)}
+		op := CfgOp{Kind: pickKind(rng, []string{"set", "put", "putnil", "del", "replace", "replacedef"}, []int{28, 25, 7, 20, 12, 8}), Opt: rng.Intn(nopt)}
 		if op.Kind == "set" || op.Kind == "put" {
 			op.Value = fmt.Sprintf("v%d", rng.Intn(1000))
+		}
+		if op.Kind == "replace" || op.Kind == "replacedef" {
+			op.Vals = map[int]string{}
+			for o := 0; o < nopt; o++ {
+				switch x := rng.Intn(100); {
+				case x < 35: // not named: reset
+				case x < 70:
+					op.Vals[o] = fmt.Sprintf("r%d", rng.Intn(1000))
+				default:
+					op.Vals[o] = "NOT VALID!" // rejected by the validation expression
+				}
+			}
 		}
 		sc.Cfg = append(sc.Cfg, op)
 	}
